@@ -66,6 +66,8 @@ def build_case(cs, profile):
         spec = sp.make_long_list_spec(rng)        # ranks 10..13
     elif fam < hr_ + 0.046:
         spec = sp.make_zero_student_spec(rng)     # the header announces 0 students
+    elif fam < hr_ + 0.066:
+        spec = sp.make_eleven_spec(rng)           # 11-12 students x 11-12 projects, short lists
     if profile.get('size_cost_cross'):
         spec = sp.make_size_cost_cross_spec(rng)
     if profile.get('big_quota'):
@@ -84,6 +86,8 @@ def build_case(cs, profile):
         okw['ncrit'] = rng.choice(ncrit_choices)
     if spec['na'] == 2 and okw.get('twopl') is None and rng.random() < 0.25:
         okw['twopl'] = False      # HA-style one-sided run
+    if spec.get('shape') == 'eleven' and okw.get('stab') is None and okw.get('twopl') is not False and rng.random() < 0.7:
+        okw['twopl'], okw['stab'] = True, True
     opts = sp.make_opts(rng, spec, **okw)
     if profile.get('bounds_stress'):
         name = rng.choice(['mincost', 'minsqcost', 'mincostlsb', 'lsb', 'lmb', 'minsqcost', 'mincost'])
@@ -112,7 +116,7 @@ def lp_case(cs, ctx, profile, probe_rate=0.0, probe_cap=64, _confirm=False):
         ctx.cnt('shipped_evaluation_instances')
     if spec['ns'] >= 10:
         ctx.cnt('instances_with_10_or_more_students')
-    if spec.get('shape') in ('huge_ids', 'huge_ids_hr', 'long_list', 'zero_students'):
+    if spec.get('shape') in ('huge_ids', 'huge_ids_hr', 'long_list', 'zero_students', 'eleven'):
         ctx.cov('family_' + spec['shape'])
     decoy_argv = None
     decoy_text = None
